@@ -10,11 +10,11 @@ tiling (what tpc_begin guarantees: C04).  These are the representation-invariant
 (fs_open proves read_index establishes them on open)."""
 import z3
 
-from pyvc import prims
+from pyvc import prims, timestamp
 from pyvc.contract import LoopSpec, Outcome, Spec
 from pyvc.engine import ContractStale, bytes_num
 from pyvc.ground import All
-from pyvc.values import (B, I, NONE, VBytes, VInt, VNone, VRef, VStr, VTuple, fresh_name)
+from pyvc.values import (B, I, NONE, VBool, VBytes, VInt, VNone, VOpaque, VRef, VStr, VTuple, fresh_name)
 
 from . import fsmodel as M
 from .common import inst
@@ -382,3 +382,107 @@ SPECS.append(RecordIteratorNext)
 INLINE += ['ZODB.FileStorage.format:FileStorageFormatter._loadBackTxn',
            'ZODB.FileStorage.format:FileStorageFormatter.getTxnFromData',
            'ZODB.FileStorage.format:DataHeader.recordlen']
+
+
+# ======================================================================================
+UNDO_ID = z3.Function('undo_id_of_tid', I, z3.DeclareSort('UndoId') if False else I)
+
+
+class UndoSearchReadnext(Spec):
+    """UndoSearch._readnext (one step of undoLog/undoInfo, walking the file backwards): the search moves to the
+    transaction that ENDS at its position; a packed transaction (status 'p') stops the search - nothing at or before
+    the pack boundary is offered for undo (C06: "only not-yet-packed transactions are undoable"); a transaction whose
+    status is not ' ' is skipped; otherwise the description names THIS transaction: id derived from its tid, and its
+    length (user/description/extension bytes: bounded harness).  base64 / unpickling are uninterpreted."""
+    func = 'ZODB.FileStorage.FileStorage:UndoSearch._readnext'
+    props = ('C06',)
+
+    def setup(self, c, case=None):
+        f = prims.new_file(c, '_file')
+        fo = c.obj(f).f
+        isB = z3.Array(fresh_name('isB'), I, B)
+        c.roles.array(isB, 'bpos')
+        pos = c.fresh_int('pos')
+        me = inst(c, 'ZODB.FileStorage.FileStorage:UndoSearch', file=f, pos=pos, first=c.fresh_int('first'),
+                  last=c.fresh_int('last'), filter=NONE, i=c.fresh_int('i'), stop=VBool(False),
+                  results=c.new_obj('list', meta={'items': []}))
+        c.roles.seed('bpos', pos.t)
+        c.ghost['it'] = {'me': me, 'f': f, 'arr': fo['arr'], 'isB': isB, 'eof': fo['size'], 'pos0': pos.t,
+                         'start': z3.IntVal(0)}
+        return {'self': me}
+
+    def requires(self, c, E):
+        g = c.ghost['it']
+        pos = g['pos0']
+        return ScanSpec.tiling(self, c) + [('stands-at-the-end-of-a-transaction', z3.And(
+            z3.Select(g['isB'], pos), pos > 4, pos <= g['eof']))]
+
+    def hooks(self, c):
+        def encode(cc, interp, args, kwargs, node):
+            cc.event('id-of', args[0])
+            return cc.fresh_opaque('undo_id')
+
+        def ometh(cc, v, name, args, kwargs, node):
+            if v.tag == 'undo_id' and name == 'rstrip':
+                return v
+            return None
+
+        def loads(cc, args, kwargs, node):
+            return cc.new_obj('pydict', meta={'pairs': []})
+        hk = {'prim:base64.encodebytes': encode, 'opaque_method': ometh, 'call:ZODB._compat:loads': loads,
+              'prim:ZODB._compat.loads': lambda cc, interp, a, k, n: cc.new_obj('pydict', meta={'pairs': []})}
+        timestamp.install(hk)
+        return hk
+
+    def modifies(self, c, E):
+        g = c.ghost['it']
+        return {(g['f'].id, 'pos'), (g['me'].id, 'pos'), (g['me'].id, 'stop')}
+
+    def outcomes(self, c, E):
+        g = c.ghost['it']
+        arr, pos = g['arr'], g['pos0']
+        l_ = be(arr, pos - 8, 8)
+        b = pos - 8 - l_
+        t = M.txn(arr, b)
+        st = t['status']
+
+        def common(cc):
+            S = cc.obj(g['me']).f
+            return [('moved-to-the-transaction-that-ended-here', isinstance(S['pos'], VInt) and S['pos'].t == b)]
+
+        def post(cc, E, r):
+            S = cc.obj(g['me']).f
+            out = common(cc)
+            stopped = not (isinstance(S['stop'], VBool) and S['stop'].t is not None and
+                           z3.is_false(z3.simplify(as_bool(S['stop']))))
+            if isinstance(r, VNone):
+                out.append(('None-only-for-a-transaction-that-is-not-undoable', st != 32))
+                out.append(('search-stopped-iff-the-transaction-is-packed',
+                            z3.BoolVal(stopped) == (st == ord('p'))))
+                return out
+            ok = isinstance(r, VRef) and cc.obj(r).kind == 'pydict'
+            out.append(('describes-an-undoable-transaction', st == 32 if ok else False))
+            out.append(('search-goes-on', not stopped))
+            if ok:
+                d = dict((k.s, v) for k, v in cc.obj(r).meta['pairs'] if isinstance(k, VStr))
+                ids = [e for e in cc.events if e[0] == 'id-of']
+                out += [('id-derived-from-this-transactions-tid', len(ids) == 1 and isinstance(ids[0][1], VBytes) and
+                         bytes_num(cc, ids[0][1]) == t['tid'] and isinstance(d.get('id'), VOpaque)),
+                        ('size-is-the-transaction-length', field_eq(cc, d.get('size'), t['tl']))]
+            return out
+        return [Outcome('answer', post=post, result=lambda cc, E: cc.fresh_opaque('answer'))]
+
+
+def as_bool(v):
+    from pyvc.engine import as_z3_bool
+    return as_z3_bool(v.t)
+
+
+def slice_or_empty(c, v, arr, off, ln):
+    from .fs_format import slice_is
+    if isinstance(v, VBytes) and v.conc_len() == 0:
+        return ln == 0
+    return slice_is(c, v, arr, off, ln)
+
+
+SPECS.append(UndoSearchReadnext)
